@@ -41,16 +41,25 @@ def Model.Good (m : Model E M) : Prop :=
 
 instance (m : Model E M) : Decidable m.Good := by unfold Model.Good; infer_instance
 
-/-- dict equality of two adjacency dicts (insertion order is irrelevant to `==`) -/
-def adjEqv (a b : List (Node E × E)) : Bool :=
-  a.length == b.length && a.all (fun q => b.lookup q.1 == some q.2)
+/-- every binding of `a` is a binding of `b` -/
+def adjSub (a b : List (Node E × E)) : Bool := a.all (fun q => b.lookup q.1 == some q.2)
+
+/-- dict equality of two adjacency dicts (insertion order is irrelevant to `==`): mutual inclusion -/
+def adjEqv (a b : List (Node E × E)) : Bool := adjSub a b && adjSub b a
+
+def Graph.sub (g1 g2 : Graph E) : Bool :=
+  g1.all (fun p => match g2.lookup p.1 with
+    | some ss => adjEqv p.2 ss
+    | none => false)
 
 /-- `nx.to_dict_of_dicts(g1) == nx.to_dict_of_dicts(g2)` -/
-def Graph.eqv (g1 g2 : Graph E) : Bool :=
-  g1.length == g2.length &&
-    g1.all (fun p => match g2.lookup p.1 with
-      | some ss => adjEqv p.2 ss
-      | none => false)
+def Graph.eqv (g1 g2 : Graph E) : Bool := g1.sub g2 && g2.sub g1
+
+/-- compartment names identify the nodes (pharmpy addresses compartments by name), on both levels -/
+def Graph.NamesDistinct (g : Graph E) : Prop :=
+  (g.map (fun p => p.1.key)).Nodup ∧ ∀ p ∈ g, (p.2.map (fun q => q.1.key)).Nodup
+
+instance (g : Graph E) : Decidable g.NamesDistinct := by unfold Graph.NamesDistinct; infer_instance
 
 /-- `CompartmentalSystem.__eq__` (the third conjunct, equal `dosing_compartments`, is a function
     of the graph content) -/
